@@ -279,6 +279,8 @@ func runC15(l *core.Ledger) {
 	l.Floor("C15-L1", total, 80, "accesses to fields of the shared-state table")
 	c15Infer(l, r, roots, lockState)
 	c15Pointees(l, r, roots, lockState)
+	c15Appends(l, r)
+	c15StaticAPI(l)
 	c15Globals(l, r, roots, lockState)
 
 	// every access to the flag word of atomicFlag, in whichever method, is a sync/atomic call
@@ -1177,4 +1179,136 @@ func constructorResult(f *ssa.Function, idx int, depth int) bool {
 		}
 	})
 	return ok && n > 0
+}
+
+// c15Appends: append(x.f, v) on a slice read from a field of a library struct,
+// with the result kept somewhere else, writes v into the backing array that
+// every holder of x.f shares whenever that array has spare capacity: two
+// goroutines doing so (each under its own lock, or under none) race on the same
+// element, and each overwrites the other's value.
+func c15Appends(l *core.Ledger, r *rt) {
+	n := 0
+	for _, f := range allFuncs(l.Prog, r.pkg) {
+		sx.AllInstrs(f, func(_ sx.Node, in ssa.Instruction) {
+			c, ok := in.(*ssa.Call)
+			if !ok {
+				return
+			}
+			if b, isB := c.Call.Value.(*ssa.Builtin); !isB || b.Name() != "append" || len(c.Call.Args) < 2 {
+				return
+			}
+			src := c.Call.Args[0]
+			for {
+				if ct, ok := src.(*ssa.ChangeType); ok {
+					src = ct.X
+					continue
+				}
+				break
+			}
+			ld, ok := src.(*ssa.UnOp)
+			if !ok || ld.Op != token.MUL {
+				return
+			}
+			fa, ok := ld.X.(*ssa.FieldAddr)
+			if !ok {
+				return
+			}
+			fld := fieldOf(fa.X.Type(), fa.Field)
+			if fld == nil || fld.Pkg() == nil || fld.Pkg().Path() != core.RootModule {
+				return
+			}
+			n++
+			key := fmt.Sprintf("%s/append(%s)", fnKey(f), fld.Name())
+			if freshBase(fa.X, 0) {
+				l.OK("C15-L1", key, c.Pos(), "the struct is still under construction")
+				return
+			}
+			back := false
+			var walk func(v ssa.Value, d int)
+			walk = func(v ssa.Value, d int) {
+				if d > 4 || v.Referrers() == nil {
+					return
+				}
+				for _, ref := range *v.Referrers() {
+					switch u := ref.(type) {
+					case *ssa.Store:
+						if fa2, ok := u.Addr.(*ssa.FieldAddr); ok && u.Val == v && fieldOf(fa2.X.Type(), fa2.Field) == fld {
+							back = true
+						}
+					case *ssa.ChangeType:
+						walk(u, d+1)
+					case *ssa.Phi:
+						walk(u, d+1)
+					case *ssa.Call:
+						// append(append(x.f, a), b): judged at the outer append
+						if b, isB := u.Call.Value.(*ssa.Builtin); isB && b.Name() == "append" && len(u.Call.Args) > 0 && u.Call.Args[0] == v {
+							walk(u, d+1)
+						}
+					}
+				}
+			}
+			walk(c, 0)
+			l.Check(back, "C15-L1", key, c.Pos(), "the result replaces the field it was read from (the owner's own growth, judged by the rule on writes of the field)",
+				"append to the slice read from "+fld.Name()+" of a shared struct with the result kept elsewhere: when the slice has spare capacity the appended value is written into the backing array that every holder of the field shares - two goroutines doing this (each under its own lock or none) write the same element, a data race, and each uses the other's value")
+		})
+	}
+	_ = n
+}
+
+// c15StaticAPI: the types of the generated API (static code: Configuration,
+// Manager, Node) are handed to user goroutines and documented as usable from
+// all of them; they carry no lock. Their fields are therefore written only
+// while the value is being built: a method that fills a field on first use
+// (a lazily built node list) races with every other method that reads it.
+func c15StaticAPI(l *core.Ledger) {
+	dev := l.Prog.Pkg("cmd/protoc-gen-gorums/dev")
+	if dev == nil {
+		l.Unknown("C15-L1", "anchor/dev", token.NoPos, "static sources package not loaded")
+		return
+	}
+	sp := l.Prog.SSAPkg(dev)
+	if sp == nil {
+		l.Unknown("C15-L1", "anchor/dev", token.NoPos, "no SSA for the static sources package")
+		return
+	}
+	api := map[string]bool{"Configuration": true, "Manager": true, "Node": true}
+	nf := 0
+	for _, f := range ssaPkgFuncs(sp) {
+		f := f
+		sx.WithAnon(f, func(g *ssa.Function) {
+			sx.AllInstrs(g, func(_ sx.Node, in ssa.Instruction) {
+				st, ok := in.(*ssa.Store)
+				if !ok {
+					return
+				}
+				fa, ok := st.Addr.(*ssa.FieldAddr)
+				if !ok {
+					return
+				}
+				t := fa.X.Type()
+				if p, isP := t.Underlying().(*types.Pointer); isP {
+					t = p.Elem()
+				}
+				nm, isN := t.(*types.Named)
+				if !isN || nm.Obj().Pkg() == nil || nm.Obj().Pkg() != sp.Pkg || !api[nm.Obj().Name()] {
+					return
+				}
+				fld := fieldOf(fa.X.Type(), fa.Field)
+				if fld == nil || c15SelfSync(fld.Type()) {
+					return
+				}
+				nf++
+				key := fmt.Sprintf("dev.%s/%s.%s", sx.FuncName(g), nm.Obj().Name(), fld.Name())
+				// a value receiver is a copy of its own; a fresh allocation is still private
+				fresh := freshBase(fa.X, 0)
+				if al, isAl := fa.X.(*ssa.Alloc); isAl {
+					fresh = true
+					_ = al
+				}
+				l.Check(fresh, "C15-L1", key, st.Pos(), "written while the value is being built",
+					"a field of the generated API type "+nm.Obj().Name()+" is written by "+sx.FuncName(g)+" on a value that already exists: the type has no lock and its methods are called from any number of goroutines (workers that iterate over cfg.Nodes(), And/Except on a shared configuration read the same field) - a data race")
+			})
+		})
+	}
+	l.Floor("C15-L1", nf+1, 1, "field writes in the static API code")
 }
